@@ -32,6 +32,15 @@ func explore(opt vrt.Options, bound int, maxExecs int64, body func(), check func
 // exploreWithSetup is explore with a setup step that runs before every execution, outside the
 // explored execution (e.g. compiling a fresh bundle so that every schedule starts cold).
 func exploreWithSetup(opt vrt.Options, bound int, maxExecs int64, setup func(), body func(), check func(v vrt.Verdict, prefix []int)) exploreStats {
+	return exploreSharded(opt, bound, maxExecs, setup, body, check, 0, 1)
+}
+
+// exploreSharded explores the share of one worker: every worker runs the root execution (the
+// default schedule); the root's children, in the deterministic order in which they are generated,
+// are dealt round-robin to the nshards workers, and each worker explores the whole subtree below
+// its children.  The union over the workers is exactly the tree explore would cover; the root is
+// counted and checked by shard 0 only.
+func exploreSharded(opt vrt.Options, bound int, maxExecs int64, setup func(), body func(), check func(v vrt.Verdict, prefix []int), shard, nshards int) exploreStats {
 	st := exploreStats{Bound: bound}
 	run := func(prefix []int) vrt.Verdict {
 		if setup != nil {
@@ -64,20 +73,30 @@ func exploreWithSetup(opt vrt.Options, bound int, maxExecs int64, setup func(), 
 				return st
 			}
 			v := run(it.prefix)
-			st.Execs++
-			st.Points += int64(len(v.Choices))
+			root := it.prefix == nil
+			if !root || shard == 0 {
+				st.Execs++
+				st.Points += int64(len(v.Choices))
+				check(v, it.prefix)
+			}
 			if len(v.Choices) > st.MaxPoints {
 				st.MaxPoints = len(v.Choices)
 			}
-			check(v, it.prefix)
 			// deviation cost accumulated along the executed sequence
 			acc := 0
+			child := 0
 			for i, ch := range v.Choices {
 				if i >= len(it.prefix) {
 					for alt := 1; alt < ch.N; alt++ {
 						c2 := acc + int(ch.Cost[alt])
 						if c2 > bound {
 							continue
+						}
+						if root {
+							child++
+							if nshards > 1 && child%nshards != shard {
+								continue
+							}
 						}
 						np := make([]int, i+1)
 						for j := 0; j < i; j++ {
